@@ -4,6 +4,7 @@ import json,sys
 props=[json.loads(l) for l in open('/verif/properties.jsonl')]
 CLAIMED={
  'C01':('exploration','callback/store monitor over adversarial inbound histories on the real engine'),
+ 'C03':('exploration','reference replay computed from the bytes the engine itself saved (store wrapper) and the independent scanner; coverage/contiguity/body-identity oracle'),
  'C04':('exploration','recovery model built from the stub peer\'s own actions; ResendRequest rules + end-to-end delivery'),
  'C06':('exploration','defects planted in flight by the stub peer in every logged-on state; non-delivery + reaction-for-one-of-the-defects oracle'),
  'C07':('exploration','continuity/reset oracle over reconnect histories for every reset-option combination, three stores'),
